@@ -199,6 +199,28 @@ fn check_lengths_basic(tag: &str, c: &Curve) -> Result<(), String> {
     Ok(())
 }
 
+/// the unadjusted path of a control-point list whose segments are all linear, written from the property's reading: the segments are the
+/// runs between typed control points (a typed point ends one segment and starts the next), each contributes its control points, and the
+/// shared joint appears once.
+fn ref_linear_natural(pts: &[PathControlPoint]) -> Vec<Pos> {
+    let mut out: Vec<Pos> = Vec::new();
+    let mut start = 0;
+    for i in 0..pts.len() {
+        if pts[i].path_type.is_none() && i + 1 < pts.len() {
+            continue;
+        }
+        let seg = &pts[start..=i];
+        if seg.len() == 1 {
+            out.push(seg[0].pos);
+        } else {
+            let skip = out.last().map_or(false, |l| *l == seg[0].pos);
+            out.extend(seg.iter().skip(usize::from(skip)).map(|p| p.pos));
+        }
+        start = i;
+    }
+    out
+}
+
 fn c16(toks: &[&str]) -> String {
     let Some(req) = parse_curve_req(toks) else { return "SKIP bad-request".into() };
     if !finite_pts(&req.pts) {
@@ -222,6 +244,15 @@ fn c16(toks: &[&str]) -> String {
         && req.pts[1..].iter().all(|p| p.path_type.is_none());
     if single_linear && !(np.len() == req.pts.len() && np.iter().zip(&req.pts).all(|(a, b)| same_pos(*a, b.pos))) {
         return format!("FAIL the unadjusted path of a linear segment is not its control points: {} vertices for {} control points", np.len(), req.pts.len());
+    }
+    // ... and of several linear segments: each segment's control points in order, a segment's first vertex dropped when it repeats the
+    // vertex before it (the joint is one control point, listed once); a path type on the last control point opens no further segment
+    let all_linear = !req.pts.is_empty() && req.pts.iter().all(|p| p.path_type.map_or(true, |t| t.kind == SplineType::Linear));
+    if all_linear {
+        let want = ref_linear_natural(&req.pts);
+        if !(np.len() == want.len() && np.iter().zip(&want).all(|(a, b)| same_pos(*a, *b))) {
+            return format!("FAIL the unadjusted path of linear segments is not their control points joined: {} vertices, expected {}", np.len(), want.len());
+        }
     }
     let scale = scale_of(np, &req.pts);
     // without a requested length the distance is the polyline's own length ...
